@@ -44,7 +44,7 @@ def measured_values(fn, w, memory_counter=False):
     loops = fn.loops()
     for h, body in loops.items():
         hb = fn.bmap[h]
-        vphi = cphi = None
+        vphi = cphi = cphi0 = None
         for p in hb.insts:
             if p.op != "phi" or len(p["incoming"]) != 2: continue
             back = [x for x in p["incoming"] if x["b"] in body]; outside = [x for x in p["incoming"] if x["b"] not in body]
@@ -55,11 +55,27 @@ def measured_values(fn, w, memory_counter=False):
             if bi.op == "lshr" and bi.ops[1]["k"] == "int" and int(bi.ops[1]["v"]) == 8 and same(fn, bi.ops[0], {"k": "inst", "v": p.id}): vphi = (p, outside[0]["v"])
             if bi.op == "add" and bi.ops[1]["k"] == "int" and int(bi.ops[1]["v"]) == 1 and same(fn, bi.ops[0], {"k": "inst", "v": p.id}) \
                     and outside[0]["v"]["k"] == "int" and int(outside[0]["v"]["v"]) == 1: cphi = p
+            # `w = 0; do { w++; v >>= 8; } while (v != 0)`: counted from 0, the width is the incremented value that leaves the loop
+            if bi.op == "add" and bi.ops[1]["k"] == "int" and int(bi.ops[1]["v"]) == 1 and same(fn, bi.ops[0], {"k": "inst", "v": p.id}) \
+                    and outside[0]["v"]["k"] == "int" and int(outside[0]["v"]["v"]) == 0: cphi0 = (p, bi)
         if vphi and not cphi and memory_counter:
             # the count is kept in memory (`obj->width = 1; while ((v >>= 8) != 0) obj->width++`): the measured value is still known
             v0 = vphi[1]; sv = strip(fn, v0)
             if sv["k"] == "inst" and fn.imap[sv["v"]].op == "lshr" and fn.imap[sv["v"]].ops[1]["k"] == "int" and int(fn.imap[sv["v"]].ops[1]["v"]) == 8: v0 = fn.imap[sv["v"]].ops[0]
             out.append((v0, None, hb.insts[0], []))
+        if vphi and cphi0 and not cphi:
+            # bottom-tested form: only valid when the shift happens after the count in every iteration, i.e. the value tested for the
+            # exit is the shifted one and the first iteration always runs (v0 itself is measured, a zero value has width 1)
+            v0 = vphi[1]; nxt = cphi0[1]
+            names = {nxt.id}
+            grew = True
+            while grew:
+                grew = False
+                for j in fn.insts():
+                    if j.op != "phi" or j.id in names or j.id == cphi0[0].id: continue
+                    vals = [strip(fn, x["v"]) for x in j["incoming"]]
+                    if vals and all(v["k"] == "inst" and v["v"] in names for v in vals): names.add(j.id); grew = True
+            out.append((v0, {"k": "inst", "v": nxt.id, "t": nxt["t"]}, hb.insts[0], [{"k": "inst", "v": n, "t": nxt["t"]} for n in sorted(names - {nxt.id})]))
         if vphi and cphi:
             v0 = vphi[1]
             sv = strip(fn, v0)
@@ -302,6 +318,11 @@ def analyse(mod, run, label, skip=()):
             if t0.op == "br" and len(t0.ops) == 3:
                 nc = norm_cond(t0.ops[0])
                 if nc and nc[0][0] == "cmp": cmps.append((b0, nc[0][1]))
+        grow_entry = "grow" in fn.name.lower() and "nogrow" not in fn.name.lower()
+        if not cmps and grow_entry:
+            # the growing entry point written as a function of its own: it stores the sum whatever width it needs, by contract
+            run.observe("%s is the growing entry point itself: no width test is required of it" % fn.name)
+            continue
         if not cmps:
             run.fail(Finding("R2-no-width-check", fn.name, "put", "guard", "no branch compares the new width with the old width: the write at %s happens whatever the sum needs (a no-grow add can outgrow its slot)" % loc(puts[0]), loc=loc(puts[0])))
             continue
